@@ -59,6 +59,11 @@ GArray *g_array_append_vals(GArray *array, gconstpointer data, guint len) {
 	for (guint k = 0; k < VERIF_GARRAY_SPLIT; k++) {
 		if (a->pub.len == k) {
 			unsigned char *dst = (unsigned char *)a->pub.data + (size_t)k * a->esize;
+#ifdef VERIF_GARRAY_REPLACE
+			/* g_array_append_val (one element): whole-object copy primitive instead of a byte loop, so that the
+			 * element's fields (pointers, lengths) stay field-sensitive for symbolic execution */
+			if (len == 1) { __CPROVER_array_replace(dst, src); a->pub.len += 1; return array; }
+#endif
 			for (size_t i = 0; i < n; i++) dst[i] = src[i];
 			a->pub.len += len;
 			return array;
